@@ -1256,3 +1256,6 @@ SYNC_POINTS |= {'epoll_wait', 'write', 'read'}
 def b_sysconf(ex, st, args, ins): return 2
 @builtin('syscall')
 def b_syscall(ex, st, args, ins): return st.threads[st.cur].tid + 100
+
+import fsmodel as _fsmodel
+_fsmodel.register(builtin)
